@@ -18,6 +18,11 @@ from fiddle._src.codegen.auto_config import experimental_top_level_api
 
 from harness import common, family, graphs, targets
 from harness.props import C15
+from harness.c12lib import auto_config as lib_auto_config, arg_factory as lib_arg_factory, fdl as lib_fdl, \
+    functools as lib_functools
+
+NAME_CLASH = [(m, getattr(m, 'block_' + m.__name__.rsplit('.', 1)[1]), getattr(m, 'Tag_' + m.__name__.rsplit('.', 1)[1]))
+              for m in (lib_auto_config, lib_arg_factory, lib_fdl, lib_functools)]
 
 
 class Hue(enum.Enum):
@@ -140,11 +145,15 @@ class Gen:
           c.c = self.value(depth - 1, in_partial)
       self.pool.append(c)
       return c
-    fn = r.choice([Model, Layer, relu, Model, Layer, relu, make_layer])
+    clash = r.choice(NAME_CLASH) if self.exotic and r.random() < 0.08 else None
+    fn = clash[1] if clash else r.choice([Model, Layer, relu, Model, Layer, relu, make_layer])
     names = {Model: ['enc', 'dec', 'width', 'name', 'opts'], Layer: ['item', 'units', 'act'], relu: ['x', 'item'],
-             make_layer: ['item', 'units']}[fn]
+             make_layer: ['item', 'units']}.get(fn, ['item', 'units'])
     kw = {n: self.value(depth, in_partial or btype is fdl.Partial) for n in names if r.random() < 0.55}
     c = btype(fn, **kw)
+    if clash and self.tags and kw and r.random() < 0.7:
+      # a callable (and a tag) from a user module whose name a generator also uses for its own imports
+      fdl.add_tag(c, list(kw)[0], r.choice(targets.TAGS))
     if self.tags:
       for n in list(kw)[:2]:
         if r.random() < 0.25:
